@@ -29,8 +29,8 @@ def run(ctx):
         ('prefix_start_after_error_leaf', 'leaf after a zero-width INDENT/DEDENT/ERROR_DEDENT (or a real) error leaf; previous value len<=2', 'value, position, token type'),
     ]]
     C.append(xh.Cond(U, 'leaf_end_pos', timeout=120, path_timeout=30, twin='end-pos-ignores-cr'))
-    ks = [13, 24, 3] if q else list(range(len(P.HOLES)))
-    C += PC.text_holes(ctx, own, ks, vis=(4,), timeout=900 if q else 2400)
+    ks = [13, 24, 3] if q else list(range(0, len(P.HOLES), 2)) + [31, 33, 35, 37]
+    C += PC.text_holes(ctx, own, ks, vis=(4,), timeout=900)
     C += PC.spell_holes(ctx, own, [2, 5] if q else range(len(P.SPELL)))
     C += PC.label_holes(ctx, own, [P.skel('# h'), P.skel("f'''"), P.skel('f"a')] + _pipe.pick(ctx, 1, len(P.SKELS), 5) if q else range(len(P.SKELS)), vis=(4,) if q else (0, 4, 8))
     xh.run_conditions(ctx, C)
